@@ -24,7 +24,7 @@ func main() {
 	n := fs.Int("n", 100, "number of random instances")
 	maxPairs := fs.Int("pairs", 40, "largest number of pairs of a random instance")
 	perm := fs.Bool("perm", false, "replay every distinct ordering of each emitted sequence")
-	corrupt := fs.String("corrupt", "", "self-test: falsify one logged field (to|member|mate|loc|dup)")
+	corrupt := fs.String("corrupt", "", "self-test: falsify one logged field (to|member|mate|loc|dup|unplaced|seen|spanim)")
 	fs.Parse(os.Args[2:])
 	if *out == "" {
 		vt.Fatal("-out is required")
